@@ -17,7 +17,7 @@ PROPERTY = "C26"
 LEVEL = "exploration"
 RULE = ("case = (axis lengths, snake flag vector, entry point in {snake_cyclers, outer_product, outer_list_product}); "
         "exhaustive over <=3 axes x lengths 1..4 x all flags (quick) / <=4 axes (+5 axes x lengths 1..3) (thorough), plus "
-        "seeded random cases up to 6 axes x length 7; distinct = distinct (lengths, flags, entry); non-trivial = "
+        "seeded random cases up to 6 axes x length 7; every call is made twice with the same argument objects (the second result must equal the first); distinct = distinct (lengths, flags, entry); non-trivial = "
         ">=2 axes with product >= 2 and at least one snaked non-first axis")
 ASSUMPTIONS = ["odometer reference model (vf/checks/C26.py:odometer) is the documented snaking order",
                "cycler library iteration order is the row order of the combined trajectory"]
@@ -103,14 +103,15 @@ def _observed(lengths, flags, entry):
     names = [f"a{i}" for i in range(len(lengths))]
     if entry == "snake_cyclers":
         cyclers = [cycler(nm, [i * 100 + j for j in range(k)]) for i, (nm, k) in enumerate(zip(names, lengths))]
-        cyc = snake_cyclers(cyclers, list(flags))
+        fl = list(flags)
+        call = lambda: snake_cyclers(cyclers, fl)  # noqa: E731
         conv = lambda i, v: int(v) - i * 100  # noqa: E731
     elif entry == "outer_list_product":
         args = []
         for i, (nm, k) in enumerate(zip(names, lengths)):
             args += [nm, [i * 100 + j for j in range(k)]]
         snake_axes = [nm for nm, f in zip(names, flags) if f]
-        cyc = outer_list_product(args, snake_axes if snake_axes else False)
+        call = lambda: outer_list_product(args, snake_axes if snake_axes else False)  # noqa: E731
         conv = lambda i, v: int(v) - i * 100  # noqa: E731
     else:
         # outer_product needs "movable" motors: objects with set/read/... -> use tiny stand-ins
@@ -121,13 +122,17 @@ def _observed(lengths, flags, entry):
             args += [m, 0.0, float(max(k - 1, 0)), k]
             if i > 0:
                 args.append(bool(flags[i]))
-        cyc = outer_product(args)
+        call = lambda: outer_product(args)  # noqa: E731
         names = motors
         conv = lambda i, v: int(round(float(v)))  # noqa: E731
-    rows = []
-    for row in cyc:
-        rows.append(tuple(conv(i, row[nm]) for i, nm in enumerate(names)))
-    return rows
+    # the same argument objects are passed twice: a pattern function must not consume or edit what it was given
+    both = []
+    for _ in range(2):
+        rows = []
+        for row in call():
+            rows.append(tuple(conv(i, row[nm]) for i, nm in enumerate(names)))
+        both.append(rows)
+    return both
 
 
 class _M:
@@ -164,7 +169,7 @@ def run_case(case):
         key = f"{entry}|{lengths}|{[int(f) for f in flags]}"
         counters = {"snaked_cases": int(snaked), "via_" + entry: 1}
         try:
-            got = _observed(lengths, flags, entry)
+            got, got2 = _observed(lengths, flags, entry)
         except Exception as e:  # noqa: BLE001
             out.append(R("violated", key, snaked, sig=f"C26:raises:{type(e).__name__}:{entry}", detail=repr(e),
                          witness={"lengths": lengths, "flags": flags, "entry": entry}, counters=counters,
@@ -176,6 +181,9 @@ def run_case(case):
             problem = "not-a-permutation-of-product"
         elif got != exp:
             problem = "order-differs-from-odometer"
+        elif got2 != got:
+            problem = "second-call-with-the-same-arguments-differs"
+            got = got2
         else:
             # continuity clause, checked directly on the output
             for a, b in zip(got, got[1:]):
